@@ -1510,6 +1510,73 @@ func (fc *FnCtx) lemmasBefore(c *ssa.CallCommon) error {
 		for k, v := range fc.letVals {
 			se.vars[k] = v
 		}
+		// locals defined in a block that strictly dominates the call (value locals only; parameters and lets win)
+		if fc.curBlock != nil {
+			locals := map[string]Val{}
+			for _, dr := range fc.debugRefs {
+				id, ok := dr.Expr.(*ast.Ident)
+				if dr.IsAddr || !ok || dr.Block() == fc.curBlock || !dr.Block().Dominates(fc.curBlock) {
+					continue
+				}
+				if v, ok := fc.env[dr.X]; ok && v.Loc == nil {
+					locals[id.Name] = v // a later dominating definition replaces an earlier one
+				}
+			}
+			for k, v := range locals {
+				if _, taken := se.vars[k]; !taken {
+					se.vars[k] = v
+				}
+			}
+			// locals that live in memory (address-taken, e.g. filled by binary.Read): their current content
+			for _, b := range fc.fn.Blocks {
+				if !(b == fc.curBlock || b.Dominates(fc.curBlock)) {
+					continue
+				}
+				for _, ins := range b.Instrs {
+					a, ok := ins.(*ssa.Alloc)
+					if !ok || a.Comment == "" || strings.Contains(a.Comment, " ") {
+						continue
+					}
+					if _, taken := se.vars[a.Comment]; taken {
+						continue
+					}
+					if v, ok := fc.env[a]; ok {
+						if l, err := fc.derefLoc(v); err == nil && l.Kind != locObj {
+							if lv, err := fc.loadAt(fc.cur, l); err == nil {
+								se.vars[a.Comment] = Val{T: lv, S: fc.vc.sortOf(l.Typ), Typ: l.Typ}
+							}
+						}
+					}
+				}
+			}
+			// a local of the function that has no definition before this call (the lemma is shared by several
+			// call sites) is an arbitrary value of its type here
+			var allRefs []*ssa.DebugRef
+			for _, b := range fc.fn.Blocks {
+				for _, ins := range b.Instrs {
+					if dr, ok := ins.(*ssa.DebugRef); ok {
+						allRefs = append(allRefs, dr)
+					}
+				}
+			}
+			for _, dr := range allRefs {
+				id, ok := dr.Expr.(*ast.Ident)
+				if dr.IsAddr || !ok {
+					continue
+				}
+				if _, taken := se.vars[id.Name]; taken {
+					continue
+				}
+				srt := fc.vc.sortOf(dr.X.Type())
+				if srt != SInt && srt != SBool {
+					continue
+				}
+				fc.vc.nfresh++
+				n := fmt.Sprintf("undef.%s!%d", smtIdent(id.Name), fc.vc.nfresh)
+				fc.vc.declare(n, string(srt))
+				se.vars[id.Name] = Val{T: n, S: srt, Typ: dr.X.Type()}
+			}
+		}
 		t, err := se.boolExpr(lm.Expr)
 		if err != nil {
 			return fmt.Errorf("%s: lemma: %v", lm.Pos, err)
